@@ -8,6 +8,8 @@ CONSTANTS
   NoOpnSnapshot = FALSE
   Kinds = {"bit", "multi", "batch2", "roaring", "rowop", "large"}
   KeyChunks = 2
+  CutClasses = {"inkey", "between", "afterid", "aftersize"}
+  UnrecognisedCuts = {}
   TornTailFails = FALSE
   RoaringTwoWrites = FALSE
   RowOpAsync = FALSE
